@@ -226,6 +226,20 @@ fn tampers(r: &mut Rng, p: &SProof, d: usize, all: bool, shorten: bool) -> Vec<S
         let mut q = p.clone(); let cs = &mut q.proof.opening_proof.commit_phase_merkle_caps; let i = r.below(cs.len() as u64) as usize;
         let j = r.below(cs[i].0.len() as u64) as usize; bump_hash(&mut cs[i].0[j], r); add("cap-commit", '0', q, d);
     }
+    // shapes the native verifier rejects although the values, read in order, are those of the valid proof: openings
+    // regrouped between two neighbouring vectors, an optional part the STARK does not have, surplus cap entries, a
+    // surplus FRI step
+    {
+        let mut q = p.clone();
+        if let Some(x) = q.proof.openings.local_values.pop() {
+            let dest = if q.proof.openings.auxiliary_polys.is_some() { q.proof.openings.auxiliary_polys.as_mut() } else { q.proof.openings.quotient_polys.as_mut() };
+            if let Some(v) = dest { v.insert(0, x); add("regrouped-local-to-next-vector", '0', q, d); }
+        }
+        if p.proof.auxiliary_polys_cap.is_none() { let mut q = p.clone(); q.proof.auxiliary_polys_cap = Some(q.proof.trace_cap.clone()); add("spurious-aux-cap", '0', q, d); }
+        let mut q = p.clone(); let dup = q.proof.trace_cap.0.clone(); q.proof.trace_cap.0.extend(dup); add("surplus-cap-entries-trace", '0', q, d);
+        let mut q = p.clone(); let qi = r.below(nq as u64) as usize;
+        { let st = &mut q.proof.opening_proof.query_round_proofs[qi].steps; if let Some(l) = st.last().cloned() { st.push(l); add("surplus-step", '0', q, d); } }
+    }
     { let mut q = p.clone(); q.proof.opening_proof.pow_witness += F::from_canonical_u64(1 + r.below(1000)); add("pow-other", '?', q, d); }
     // the degree handed to the assignment routine differs from the proof's degree
     add("degree-plus1", '0', p.clone(), d + 1);
@@ -297,6 +311,35 @@ fn plain<S: Stark<F, D> + Copy>(w: &mut dyn Write, r: &mut Rng, name: &str, kind
             cases.push(SCase { name: format!("otherlength{d2}"), exp: '0', p: p2, degree_arg: d });
         }
     }
+    // a proof of the half-length trace that has the SHAPE of a proof for 2^d rows: committed with one more bit of
+    // blow-up (prove_with_commitment on a transcript that absorbed the circuit's configuration), final polynomial
+    // zero-padded to the expected length.  Natively it is a proof for 2^d rows and fails; the circuit must not accept
+    // it for any value of the degree target, in particular not for d - 1
+    if d >= 2 {
+        let mut cfg2 = cfg.clone();
+        cfg2.fri_config.rate_bits += 1;
+        let same_steps = catch_unwind(AssertUnwindSafe(|| cfg2.fri_params(d - 1).reduction_arity_bits == cfg.fri_params(d).reduction_arity_bits)).unwrap_or(false);
+        if same_steps {
+            let (t2, pis2) = trace_for(kind, d - 1, r);
+            let res = catch_unwind(AssertUnwindSafe(|| {
+                let mut timing = TimingTree::default();
+                let tc = plonky2::fri::oracle::PolynomialBatch::<F, C, D>::from_values(t2.clone(), cfg2.fri_config.rate_bits, false, cfg2.fri_config.cap_height, &mut timing, None);
+                let mut ch = plonky2::iop::challenger::Challenger::<F, <C as plonky2::plonk::config::GenericConfig<D>>::Hasher>::new();
+                ch.observe_elements(&pis2);
+                cfg.observe(&mut ch);
+                ch.observe_cap(&tc.merkle_tree.cap);
+                starky::prover::prove_with_commitment::<F, C, S, D>(&stark, &cfg2, &t2, &tc, None, None, &mut ch, &pis2,
+                                                                  Some(cfg.fri_params(d).final_poly_len()), Some(cfg.fri_params(d).reduction_arity_bits.len()), &mut timing)
+            }));
+            if let Ok(Ok(mut p2)) = res {
+                let want = cfg.fri_params(d).final_poly_len();
+                while p2.proof.opening_proof.final_poly.coeffs.len() < want { p2.proof.opening_proof.final_poly.coeffs.push(FE::ZERO); }
+                for da in [d - 1, d] {
+                    cases.push(SCase { name: format!("halflength-on-double-blowup-degreearg{da}"), exp: '0', p: p2.clone(), degree_arg: da });
+                }
+            }
+        }
+    }
     run_cases(w, &tag, stark, cfg, &None, &outer, d, cases)
 }
 
@@ -316,6 +359,19 @@ fn multi<S: Stark<F, D> + Copy>(w: &mut dyn Write, r: &mut Rng, name: &str, kind
         };
         let mut cases = vec![SCase { name: "valid".into(), exp: '1', p: p.clone(), degree_arg: d }];
         cases.extend(tampers(r, &p, d, all || d == min || d == max, true));
+        // an honest proof except that the prover added a multiple of the last FRI domain's vanishing polynomial to
+        // the final polynomial (same values on that domain, more coefficients than a proof of 2^d rows may have):
+        // the native verifier rejects it by shape, the circuit has room for the extra coefficients
+        {
+            plonky2::plonk::verif_knobs::set_final_poly_vanishing_multiple(Some(1 + r.below(1 << 30)));
+            let q = prove_one(stark, cfg, trace.clone(), &pis, &vp);
+            plonky2::plonk::verif_knobs::set_final_poly_vanishing_multiple(None);
+            if let Ok(q) = q {
+                if q.proof.opening_proof.final_poly.coeffs.len() != p.proof.opening_proof.final_poly.coeffs.len() {
+                    cases.push(SCase { name: "finalpoly-plus-vanishing-multiple".into(), exp: '0', p: q, degree_arg: d });
+                }
+            }
+        }
         // a proof made WITHOUT the padding of the transcript (valid for a plain verifier only)
         if d < max {
             if let Ok(q) = prove_one(stark, cfg, trace, &pis, &None) { cases.push(SCase { name: "unpadded-transcript".into(), exp: '?', p: q, degree_arg: d }); }
@@ -390,6 +446,7 @@ pub fn run(seed: u64, tier: &str, w: &mut dyn Write) -> usize {
     // the in-circuit cross-table-lookup evaluator against the native one (verify_stark_proof_circuit itself
     // is always called without CTL data by this harness)
     n += crate::c10::ctl_circuit_cases(w, &mut r, if thorough { 40 } else { 12 });
+    n += crate::c10::ctl_sum_circuit_cases(w, &mut r, if thorough { 24 } else { 8 });
     if thorough {
         n += plain(w, &mut r, "fib-b", Kind::Fib, fib, &cfg_b, 7, true);
         n += plain(w, &mut r, "fib-a", Kind::Fib, fib, &cfg_a, 9, true);
